@@ -80,7 +80,80 @@ pub fn recover_obs(t: u32, shares: &[Share]) -> String {
   }
 }
 
+/// the three 64-bit words that make `Fp::random` return x (it reads them as the internal Montgomery form x * 2^192)
+fn words_for(x: &star_sharks::Fp) -> Vec<u64> {
+  use star_sharks::Fp;
+  use ff::Field;
+  let mont = *x * Fp::from(2u64).pow_vartime([192u64]);
+  let b = crate::g_fp::bytes_of(&mont);
+  (0..3).map(|i| u64::from_le_bytes(b[8 * i..8 * i + 8].try_into().unwrap())).collect()
+}
+
+/// Share points that agree in their low 128 bits (k and 2^128 + k, both below the modulus 2^128 + 12451) are different
+/// points: shares at them must combine.  The random point is forced through a scripted random source.
+fn gen_limb_apart(out: &mut Out) {
+  for (gi, &(t, k)) in [(2u32, 1u128), (2, 12450), (4, 2), (3, 7)].iter().enumerate() {
+    let secret = le24(0, 0x1234_5678_9abc_def0 + gi as u128);
+    let target = crate::g_fp::fp_of(&le24(1, k)).expect("2^128 + k is below the modulus");
+    let mut ws: Vec<u64> = vec![];
+    for i in 0..(t as usize - 1) {
+      ws.extend([5 + i as u64, 0, 0]);
+    }
+    ws.extend(words_for(&target));
+    for _ in 0..40 {
+      ws.extend([1u64, 0, 0]);
+    }
+    let n_iter = (k as usize).min(16).max(t as usize) + 1;
+    let mut rng = ScriptRng::new(ws.clone());
+    let dealt = guarded(|| match Sharks(t).dealer_rng(&secret, &mut rng) {
+      Ok(mut ev) => {
+        let its: Vec<Share> = (&mut ev).take(n_iter).collect();
+        let g = ev.gen(&mut rng);
+        Some((its, g))
+      }
+      Err(_) => None,
+    });
+    let case = format!("sharks.deal {} {} {} {}", t, hex(&secret), n_iter, words_hex(&ws));
+    let (its, gshare) = match dealt {
+      Some(Some(x)) => x,
+      _ => {
+        out.case(case, "err".into(), Err("dealer refused an in-range secret".into()));
+        continue;
+      }
+    };
+    let enc: Vec<Vec<u8>> = its.iter().map(|s| Vec::from(s)).collect();
+    let genc = Vec::from(&gshare);
+    let v = if genc[..24] == le24(1, k)[..] { Ok(()) } else { Err("the scripted random source did not give the intended share point".to_string()) };
+    out.case(case, format!("ok {} gen={}", enc.iter().map(|b| hex(b)).collect::<Vec<_>>().join(","), hex(&genc)), v);
+    // the iterator share at x = k (when k is small enough to be among them) or x = 1.., with the share at 2^128 + k
+    let near = if (k as usize) <= enc.len() { k as usize - 1 } else { 0 };
+    let mut pick: Vec<Vec<u8>> = vec![enc[near].clone(), genc.clone()];
+    for b in enc.iter() {
+      if pick.len() < t as usize && !pick.contains(b) {
+        pick.push(b.clone());
+      }
+    }
+    for rev in [false, true] {
+      let mut sel = pick.clone();
+      if rev {
+        sel.reverse();
+      }
+      let shares: Vec<Share> = sel.iter().map(|b| Share::try_from(b.as_slice()).unwrap()).collect();
+      let obs = recover_obs(t, &shares);
+      let want = format!("ok {}", hex(&secret));
+      out.case(
+        format!("sharks.recover {} {}", t, sel.iter().map(|b| hex(b)).collect::<Vec<_>>().join(" ")),
+        obs.clone(),
+        if obs == want { Ok(()) } else { Err(format!("{} shares with distinct points (two of them 2^128 apart) of threshold {} gave {}", t, t, &obs[..obs.len().min(30)])) },
+      );
+    }
+  }
+}
+
 pub fn gen(seed: u64, thorough: bool, only: Option<u64>, out: &mut Out) {
+  if only.is_none() {
+    gen_limb_apart(out);
+  }
   let groups: u64 = if thorough { 500 } else { 60 };
   let lat = lattice();
   for g in 0..groups {
